@@ -20,7 +20,9 @@ fn main() {
 	vcore::install_quiet_panic_hook();
 	let args = Args::parse();
 	let mut rep = args.report();
-	let mut prof = Profile::for_prop(&args.prop, args.thorough());
+	// (a stage may run another property's workload under this property's name: `profile=Cxx`)
+	let mut prof = Profile::for_prop(args.kv.get("profile").map(|s| s.as_str()).unwrap_or(&args.prop), args.thorough());
+	prof.prop = args.prop.clone();
 	if let Some(s) = args.kv.get("steps") {
 		prof.steps = s.parse().unwrap();
 	}
